@@ -477,29 +477,64 @@ def rule_x6(P):
     obl.append({"rule": "X6", "inst": "validate() bounds the depth by MAX_INCLUDE_DEPTH and keeps a seen set", "ok": ok})
     if not ok:
         findings.append(F("X6", "X6|validate-shape", f"IncludeGraph::validate lost its depth bound (MAX_INCLUDE_DEPTH used: {has_cmp}) or its seen set ({has_seen})", P.body_file_line(va)))
-    # in generate_recurse the recursive call is skipped for rejected statements: it is control dependent on the `any(..)` test
+    # the rejected edges reach generate_recurse without a lossy re-indexing: any collection built between validate()
+    # and the call must still distinguish (file, statement) pairs
+    lossy = []
+    if vcalls and rcalls:
+        vd = vcalls[0]["term"]["d"][0]
+        for r in rcalls:
+            for a in r["term"]["a"]:
+                l = operand_local(a)
+                if l is None:
+                    continue
+                sl, recs = backward_slice(body, [l], defs)
+                if vd not in sl:
+                    continue
+                for d in recs:
+                    if d[0] != "call":
+                        continue
+                    k = d[3]["f"].get("k")
+                    nm = (k.get("fn") if k else "").rsplit("::", 1)[-1]
+                    dty = d[3].get("dty", "")
+                    if nm in ("collect", "from_iter") and ("Map<" in dty):
+                        from e1 import split_generics
+                        try:
+                            keyty = split_generics(dty)[0]
+                        except Exception:
+                            keyty = "?"
+                        if not keyty.startswith("("):
+                            lossy.append((dty[:80], d[3]["l"]))
+    ok = not lossy
+    obl.append({"rule": "X6", "inst": "rejected include edges are not re-indexed into a map keyed by file only", "ok": ok})
+    if not ok:
+        findings.append(F("X6", "X6|lossy-skip-index", f"generate_parse_tree re-indexes validate()'s rejected edges into {lossy[0][0]} before handing them to generate_recurse: a map keyed by file keeps one rejected statement per file, so a second cyclic include in the same file is still expanded and the assembly recurses without bound", P.site_loc(gp, lossy[0][1])))
+    # in generate_recurse the recursive call is control dependent on a test derived from the rejected-edge parameter
     rb = P.bodies[gr]
     rcfg = CFG(rb)
+    rdefs = def_sites(rb)
     rec = [s for s in P.iter_sites(gr) if s["kind"] == "call" and gr in s["targets"] and not rb["blocks"][s["bi"]]["cl"]]
-    tests = [s for s in P.iter_sites(gr) if s["kind"] == "call" and any(t.endswith("Iterator::any") or t.endswith("::any") for t in s["targets"])]
-    ok = bool(rec) and bool(tests)
-    if ok:
-        for r in rec:
-            good = False
-            for tsite in tests:
-                t = tsite["term"]
-                nb = t["to"][0] if t["to"] else None
-                if nb is None:
-                    continue
-                sw = rb["blocks"][nb]["t"]
-                if sw["t"] == "sw" and operand_local(sw["o"]) == t["d"][0] and sw["v"] == ["0"]:
-                    false_target = sw["to"][0]
-                    if rcfg.dominates(false_target, r["bi"]):
-                        good = True
-            ok = ok and good
-    obl.append({"rule": "X6", "inst": "generate_recurse recurses only for include statements not in the rejected list", "ok": ok})
+    skip_param = 3  # self, id, skip
+    ok = bool(rec)
+    dom = rcfg.dominators()
+    for r in rec:
+        good = False
+        for b in dom.get(r["bi"], ()):
+            t = rb["blocks"][b]["t"]
+            if t["t"] != "sw" or b == r["bi"]:
+                continue
+            cl = operand_local(t["o"])
+            if cl is None:
+                continue
+            sl, _ = backward_slice(rb, [cl], rdefs)
+            if skip_param in sl:
+                # the recursive call must lie on one side of that test only
+                sides = [tg for tg in t["to"] if rcfg.dominates(tg, r["bi"]) and rcfg.pred[tg] == [b]]
+                if sides:
+                    good = True
+        ok = ok and good
+    obl.append({"rule": "X6", "inst": "generate_recurse recurses only under a test derived from the rejected-edge parameter", "ok": ok})
     if not ok:
-        findings.append(F("X6", "X6|skip-test", "generate_recurse no longer skips the rejected include statements before recursing", P.body_file_line(gr)))
+        findings.append(F("X6", "X6|skip-test", "generate_recurse no longer tests the rejected include statements before recursing", P.body_file_line(gr)))
     return findings, obl, {}
 
 
